@@ -124,14 +124,34 @@ _RE_COV = re.compile(r"^<(\w+) line \d+, col \d+ to line \d+, col \d+ of module 
 def run_tlc(module: str, cfg: str, workdir: Path, *, workers=2, timeout=900,
             env=None, simulate: str | None = None, depth: int | None = None,
             seed: int | None = None, coverage=False, heap="4g", dfs=False,
-            keep_raw=True, line_cb=None) -> TlcResult:
-    """Run TLC on spec/<module>.tla with the given cfg text."""
+            keep_raw=True, line_cb=None, defs: dict | None = None) -> TlcResult:
+    """Run TLC on spec/<module>.tla with the given cfg text.
+
+    defs: constants whose values the cfg grammar cannot express (tuples, sets of
+    sequences): a wrapper module R_<module> extending <module> is generated in the
+    work directory with one definition def_<Name> per entry and the cfg gets
+    `Name <- def_<Name>`."""
     workdir.mkdir(parents=True, exist_ok=True)
+    root = SPEC / f"{module}.tla"
+    if defs:
+        wrapper = f"R_{module}"
+        body = [f"---- MODULE {wrapper} ----", f"EXTENDS {module}"]
+        subs = []
+        for k, v in defs.items():
+            body.append(f"def_{k} == {tla(v)}")
+            subs.append(f"  {k} <- def_{k}")
+        body.append("====")
+        root = workdir / f"{wrapper}.tla"
+        root.write_text("\n".join(body) + "\n")
+        if "CONSTANTS" in cfg:
+            cfg = cfg.replace("CONSTANTS\n", "CONSTANTS\n" + "\n".join(subs) + "\n", 1)
+        else:
+            cfg = cfg + "CONSTANTS\n" + "\n".join(subs) + "\n"
     cfgp = workdir / f"{module}.cfg"
     cfgp.write_text(cfg)
     meta = workdir / f"meta_{module}"
     shutil.rmtree(meta, ignore_errors=True)
-    cmd = ["java", "-XX:+UseSerialGC", "-Xss256m", f"-Xmx{heap}"]
+    cmd = ["java", "-XX:+UseSerialGC", "-Xss256m", f"-Xmx{heap}", f"-DTLA-Library={SPEC}"]
     if dfs:
         cmd.append("-Dtlc2.tool.queue.IStateQueue=StateDeque")
     cmd += ["-cp", JAR, "tlc2.TLC", "-workers", str(workers), "-metadir", str(meta),
@@ -144,14 +164,14 @@ def run_tlc(module: str, cfg: str, workdir: Path, *, workers=2, timeout=900,
         cmd += ["-seed", str(seed)]
     if coverage:
         cmd += ["-coverage", "1"]
-    cmd.append(str(SPEC / f"{module}.tla"))
+    cmd.append(str(root))
     e = dict(os.environ)
     e.update(env or {})
     t0 = time.time()
     res = TlcResult(rc=-1)
     raw = []
     try:
-        p = subprocess.Popen(cmd, cwd=SPEC, env=e, stdout=subprocess.PIPE,
+        p = subprocess.Popen(cmd, cwd=root.parent, env=e, stdout=subprocess.PIPE,
                              stderr=subprocess.STDOUT, text=True, bufsize=1 << 20)
         deadline = t0 + timeout
         for line in p.stdout:
